@@ -101,6 +101,13 @@ class ListV(AVal):
     # consumers), `head` is the generic element of the summarised prefix and `tail` the appended items, in order
     head: AVal | None = None
     tail: tuple = ()
+    tail_elem: AVal | None = None  # the `elem` these head/tail describe; a derived list with another elem invalidates them
+
+    def parts(self):
+        """(head element, tail items) when the segmented view is valid for this list, else None."""
+        if self.items is None and self.tail and self.head is not None and self.tail_elem is self.elem:
+            return self.head, self.tail
+        return None
 
     def __repr__(self):
         if self.items is not None:
